@@ -236,7 +236,7 @@ print(json.dumps([out, all(hs)]))
         agg['samples'].append(dict(sorted_head=vals[0][0][:5], runs=sorted('%s/seed=%s' % k for k in results)))
         for k, v in results.items():
             if v[0] != vals[0][0] or not v[1]:
-                rpath = os.path.join(ctx['root'], 'evidence', 'replays', 'C12-x_process.json')
+                rpath = os.path.join(ctx['evdir'], 'replays', 'C12-x_process.json')
                 os.makedirs(os.path.dirname(rpath), exist_ok=True)
                 json.dump(dict(property='C12', harness='x_process', note='sorted order differs across runs',
                                runs={'%s/%s' % kk: vv for kk, vv in results.items()}), open(rpath, 'w'), indent=1)
